@@ -688,6 +688,7 @@ func (nsEngine) Generate(p *sim.Plan, g *sim.Rng) {
 // nsQueue implements workqueue.TypedRateLimitingInterface[reconcile.Request]: a de-duplicating ordered set. The single
 // controller worker is the driver itself, so an item is never "processing" while something is added.
 type nsQueue struct {
+	mu       sync.Mutex // a real workqueue is goroutine-safe (a repaired fan-out may add from a timer goroutine)
 	items    []reconcile.Request
 	in       map[reconcile.Request]bool
 	requeues map[reconcile.Request]int
@@ -699,6 +700,8 @@ func newNsQueue() *nsQueue {
 }
 
 func (q *nsQueue) Add(it reconcile.Request) {
+	q.mu.Lock()
+	defer q.mu.Unlock()
 	if q.in[it] {
 		q.dups++
 		return
@@ -706,28 +709,46 @@ func (q *nsQueue) Add(it reconcile.Request) {
 	q.in[it] = true
 	q.items = append(q.items, it)
 }
-func (q *nsQueue) Len() int { return len(q.items) }
+func (q *nsQueue) Len() int {
+	q.mu.Lock()
+	defer q.mu.Unlock()
+	return len(q.items)
+}
 func (q *nsQueue) take(i int) reconcile.Request {
+	q.mu.Lock()
+	defer q.mu.Unlock()
 	it := q.items[i]
 	q.items = append(q.items[:i:i], q.items[i+1:]...)
 	delete(q.in, it)
 	return it
 }
 func (q *nsQueue) Get() (reconcile.Request, bool) {
-	if len(q.items) == 0 {
+	if q.Len() == 0 {
 		return reconcile.Request{}, true
 	}
 	return q.take(0), false
 }
-func (q *nsQueue) Done(reconcile.Request)                    {}
-func (q *nsQueue) ShutDown()                                 {}
-func (q *nsQueue) ShutDownWithDrain()                        {}
-func (q *nsQueue) ShuttingDown() bool                        { return false }
+func (q *nsQueue) Done(reconcile.Request)                         {}
+func (q *nsQueue) ShutDown()                                      {}
+func (q *nsQueue) ShutDownWithDrain()                             {}
+func (q *nsQueue) ShuttingDown() bool                             { return false }
 func (q *nsQueue) AddAfter(it reconcile.Request, _ time.Duration) { q.Add(it) }
-func (q *nsQueue) AddRateLimited(it reconcile.Request)       { q.requeues[it]++; q.Add(it) }
-func (q *nsQueue) Forget(it reconcile.Request)               { delete(q.requeues, it) }
-func (q *nsQueue) NumRequeues(it reconcile.Request) int      { return q.requeues[it] }
-
+func (q *nsQueue) AddRateLimited(it reconcile.Request) {
+	q.mu.Lock()
+	q.requeues[it]++
+	q.mu.Unlock()
+	q.Add(it)
+}
+func (q *nsQueue) Forget(it reconcile.Request) {
+	q.mu.Lock()
+	delete(q.requeues, it)
+	q.mu.Unlock()
+}
+func (q *nsQueue) NumRequeues(it reconcile.Request) int {
+	q.mu.Lock()
+	defer q.mu.Unlock()
+	return q.requeues[it]
+}
 
 // ---------------------------------------------------------------- the API store
 
@@ -1430,7 +1451,7 @@ func (s *nsSim) drain(final bool) {
 	for round := 0; round < 3; round++ {
 		for ; n < limit && s.step(); n++ {
 		}
-		if !final || n >= limit {
+		if n >= limit {
 			break
 		}
 		// let simulated time pass: anything the controller scheduled for later (a delayed retry) happens now
